@@ -120,6 +120,9 @@ func (r *balanceRunner) setupFlags(c *cobra.Command) {
 }
 
 func (r balanceRunner) execute(cmd *cobra.Command, args []string) error {
+	if r.digits < -1000 || r.digits > 1000 {
+		return fmt.Errorf("--digits must be between -1000 and 1000, got %d", r.digits)
+	}
 	reg := registry.New()
 	valuation, err := r.valuation.Value(reg)
 	if err != nil {
